@@ -143,6 +143,15 @@ CHECKS = {
                      "is gone, folders after files; main() never raises out of its loop and consumes every line.",
                 note="The unit of interleaving is the line (pipe writes <= 512 bytes are atomic); a killed client simply "
                      "stops sending; the pipe/EOF model itself is trusted."),
+    "C12": dict(engine="sessions + history machine", cat="exploration", ref="DESIGN.md section 3 (C12)",
+                technique="deterministic simulation of definition/call histories: fresh actor processes per session on one "
+                          "durable cache directory, source rewritten and reloaded or code objects swapped as injected events, "
+                          "every returned value checked against the version tag of the definition it was called through",
+                text="Values must carry the calling definition's version; unchanged code must keep its cache across "
+                     "restarts (execution counter); histories that only call the newest definition are judged strictly, "
+                     "histories that call an older live definition are matched against known finding F13.",
+                note="Kill during invalidation is C05's; stale .pyc files are an interpreter matter (no bytecode written); "
+                     "one lambda per module (documented collisions outside the domain)."),
 }
 NOT_APPLICABLE = {
     "C03": "pure function of (object, compressor, protocol, target): no schedule, clock, fault or history for a simulator to own; input enumeration is not this technique (its damaged-file cousin is C14, its stateful reader C13)",
